@@ -38,9 +38,14 @@ const cstl_STRING_char_t * STRF(
 
 const cstl_STRING_char_t * STRF(str, const struct cstl_STRING * const s)
 {
-    const cstl_STRING_char_t * str = STRF(data, (struct cstl_STRING *)s);
-    if (str == NULL) {
-        str = &STRV(nul);
+    const cstl_STRING_char_t * str = &STRV(nul);
+    /*
+     * the buffer only holds a (terminated) string once the underlying
+     * vector has elements; storage that has merely been reserved is
+     * not initialized
+     */
+    if (cstl_vector_size(&s->v) > 0) {
+        str = STRF(data, (struct cstl_STRING *)s);
     }
     return str;
 }
